@@ -102,4 +102,18 @@ CHECKS = {
          "hook trace == pre/post-order traversal; each hook's return value used exactly once (marks in output/result); post-deserialize multiset == "
          "instances of the result; context reaches exactly the opted-in nodes below opted-in ancestors.",
     note="hooks mark tags so that 'return value is what is used' is observable; deserialize pre-hooks of speculative union attempts are allowed (only post counts are exact)"),
+ "C16": dict(engine="E1 schema-space", design_ref="6/C16",
+    technique="exhaustive enumeration of all strings up to a length bound over an adversarial alphabet x every splice position, with neighbour-rejection and a sentinel side effect",
+    text="All strings of length 0..3 (0..4 in thorough) over 14 adversarial characters (quotes, backslash, newline, braces, %, #, NUL-like payloads, "
+         "non-ASCII) plus 30 injection payloads x 13 positions (three alias sources with and without forbid_extra_keys / allow_deserialization_not_by_alias, "
+         "TypedDict required/NotRequired key, discriminator field, Literal str/bytes, enum value, namedtuple-as-dict key): build succeeds, the exact string "
+         "is written and read, one-character and escape-lookalike neighbours are rejected, error objects carry the exact string, the sentinel never fires.",
+    note="namedtuple field names and empty/dunder discriminator names are excluded by Python's or the documented API's own rules (counted as not applicable)"),
+ "C18": dict(engine="E1 schema-space", design_ref="6/C18",
+    technique="exhaustive enumeration of container schemas x all 32 no_copy_collections subsets x routes x values with an identity-sharing model",
+    text="Container schemas up to depth 3 over {int, date, Any} x every subset of {list, dict, set, deque, OrderedDict} as no_copy_collections through codec "
+         "default_dialect, Config.dialect and call dialect, plus the orjson/msgpack/TOML dialects x values: the set of mutable containers shared by identity "
+         "between value and output equals the model's prediction exactly; serialization never mutates the value; decoding never shares a typed container "
+         "with, nor mutates, its input.",
+    note="trusted base: the sharing model in vmc/checks/c18.py (origin in N and conversion-free elements, Optional positions inside collections rebuilt, nested dataclasses reached only by a codec default_dialect)"),
 }
